@@ -414,3 +414,34 @@ pub fn run(run: &Run) {
         }
     });
 }
+
+pub fn replay(v: &serde_json::Value) -> i32 {
+    let r = &v["replay"];
+    if let Some(t) = r.get("task").filter(|t| !t.is_null()) {
+        let task = ExtTask {
+            left: t["left"].as_str().unwrap_or("").into(),
+            left_is_spec: t["left_is_spec"].as_bool().unwrap_or(false),
+            right: t["right"].as_str().unwrap_or("").into(),
+            ug: t["user_guide"].as_str().unwrap_or("").into(),
+            po: t["proof_outline"].as_str().unwrap_or("").into(),
+        };
+        let bypass = r["bypass_tightness"].as_bool().unwrap_or(false);
+        let f = Flags { dec: anthem::verif::Decomposition::Sequential, simplify: true, eqb: true };
+        let c = reference_conditions(&task, bypass);
+        let res = std::panic::catch_unwind(std::panic::AssertUnwindSafe(|| build_external(&task, &f, fol::Direction::Universal, bypass)));
+        let accepted = matches!(&res, Ok(Ok(_)));
+        let ok = c.as_ref().map(|c| c.ok).unwrap_or(true);
+        println!("replay: accepted={accepted} panicked={} reference_conditions_hold={ok} failed={:?}", res.is_err(), c.map(|c| c.why));
+        return if res.is_err() || (accepted && !ok) { 1 } else { 0 };
+    }
+    if let Some(p) = r["program"].as_str() {
+        let Ok(prog) = p.parse::<asp::Program>() else { return 2 };
+        let t = prog.is_tight();
+        let want = !refsem::positive_dependency_cyclic(&prog);
+        let reg = prog.is_regular();
+        let wreg = prog.rules.iter().all(rule_regular);
+        println!("replay `{p}`: is_tight={t} reference={want}; is_regular={reg} reference={wreg}");
+        return if t != want || reg != wreg { 1 } else { 0 };
+    }
+    2
+}
